@@ -5,6 +5,7 @@
                                    with its parents sorted and its attrs / tags Cedar-equal (veq both ways) to the originals
    - dec_enc_entity_map_eq       : with the identity member order, decode (encode m) = map norm_entity (sort_entities m)
    - second_encoding_identical   : with the identity member order, encoding what was decoded gives the identical document
+   - dec_enc_entity_map_canon    : the decoded store has distinct keys, duplicate-free parents and well-formed attrs / tags
    - enc_entity_map_guards       : the encoder output never hits the two document-wide DUnk guards (any_fold, any_dups)
    - dec_entity_map_total        : the decoder never answers DFuel
    - dec_uid_explicit / dec_uid_implicit / dec_entity_map_spelling : both accepted spellings of a uid decode to the same uid, and an
@@ -553,23 +554,30 @@ Section EntityJsonProofs.
 
   Definition id_order : Prop := forall l, ord l = l.
 
+  (* what the decoder yields is in canonical form: duplicate-free parents, well-formed (key-sorted, canonical sets) attrs and tags *)
+  Definition entity_canon (e : entity) : Prop :=
+    NoDup (e_parents e) /\ wf_value (VRecord (e_attrs e)) = true /\ wf_value (VRecord (e_tags e)) = true.
+
   Definition ent_rt (sp : uid -> json) (ue ue' : uid * entity) : Prop :=
-    dec_entity (enc_entity_sp sp ue) = DOk ue' /\ entity_equiv ue ue' /\ (id_order -> ue' = norm_entity ue).
+    dec_entity (enc_entity_sp sp ue) = DOk ue' /\ entity_equiv ue ue' /\ (id_order -> ue' = norm_entity ue) /\
+    entity_canon (snd ue').
 
   Lemma dec_enc_entity_sp sp ue : spelling sp -> entity_wf (snd ue) -> exists ue', ent_rt sp ue ue'.
   Proof.
     intros Hsp (Hnd & Hsa & _ & Hst & _). destruct ue as [u e]. cbn [fst snd] in *.
-    destruct (dec_enc_record _ Hsa) as (a' & Hda & Ra1 & Ra2 & _ & Ea).
-    destruct (dec_enc_record _ Hst) as (t' & Hdt & Rt1 & Rt2 & _ & Et).
+    destruct (dec_enc_record _ Hsa) as (a' & Hda & Ra1 & Ra2 & Wa & Ea).
+    destruct (dec_enc_record _ Hst) as (t' & Hdt & Rt1 & Rt2 & Wt & Et).
     exists (u, {| e_parents := sort_uids (e_parents e); e_attrs := a'; e_tags := t' |}).
     unfold ent_rt, enc_entity_sp. cbn [fst snd]. rewrite dec_entity_obj.
     rewrite (spelling_dec sp Hsp u). cbn [dbind].
     rewrite map_map, (dall_map_ok _ (fun x => x)) by (apply Forall_forall; intros x _; apply spelling_dec; exact Hsp).
     rewrite map_id. cbn [dbind].
     rewrite dedup_uids_nodup; [|apply sort_uids_nodup; exact Hnd | intros x _ []].
-    rewrite Hda, Hdt. cbn [dbind]. split; [reflexivity|]. split.
+    rewrite Hda, Hdt. cbn [dbind]. split; [reflexivity|]. split; [|split].
     - unfold entity_equiv. cbn [fst snd e_parents e_attrs e_tags]. tauto.
     - intros Hid. unfold norm_entity. cbn [fst snd]. rewrite (Ea Hid), (Et Hid). reflexivity.
+    - unfold entity_canon. cbn [fst snd e_parents e_attrs e_tags].
+      split; [apply sort_uids_nodup; exact Hnd | split; assumption].
   Qed.
 
   Lemma jfold_enc_entity_sp sp ue : spelling sp -> entity_wf (snd ue) -> jfold (enc_entity_sp sp ue) = false.
@@ -604,14 +612,16 @@ Section EntityJsonProofs.
 
   Lemma dall_entities sp l : spelling sp -> Forall (fun ue => entity_wf (snd ue)) l ->
     exists l', dall (map dec_entity (map (enc_entity_sp sp) l)) = DOk l' /\ Forall2 entity_equiv l l' /\
-               (id_order -> l' = map norm_entity l).
+               (id_order -> l' = map norm_entity l) /\ Forall (fun ue' => entity_canon (snd ue')) l'.
   Proof.
     intros Hsp HF. induction HF as [|ue l Hue _ IH].
-    - exists []. split; [reflexivity|]. split; [constructor | reflexivity].
-    - destruct IH as (l' & Hd & Heq & Hid). destruct (dec_enc_entity_sp sp ue Hsp Hue) as (ue' & Hd1 & Heq1 & Hid1).
-      exists (ue' :: l'). cbn [map dall]. rewrite Hd1, Hd. cbn [dbind]. split; [reflexivity|]. split.
+    - exists []. split; [reflexivity|]. split; [constructor | split; [reflexivity | constructor]].
+    - destruct IH as (l' & Hd & Heq & Hid & Hc).
+      destruct (dec_enc_entity_sp sp ue Hsp Hue) as (ue' & Hd1 & Heq1 & Hid1 & Hc1).
+      exists (ue' :: l'). cbn [map dall]. rewrite Hd1, Hd. cbn [dbind]. split; [reflexivity|]. split; [|split].
       + constructor; assumption.
       + intros H. rewrite (Hid1 H), (Hid H). reflexivity.
+      + constructor; assumption.
   Qed.
 
   Lemma equiv_keys l l' : Forall2 entity_equiv l l' -> map fst l' = map fst l.
@@ -658,14 +668,16 @@ Section EntityJsonProofs.
   Theorem dec_enc_entity_map_sp : forall sp m, spelling sp -> store_wf m ->
     exists m', dec_entity_map (enc_entity_map_sp sp m) = DOk m' /\
                Forall2 entity_equiv (sort_entities ukey m) m' /\
-               (id_order -> m' = map norm_entity (sort_entities ukey m)).
+               (id_order -> m' = map norm_entity (sort_entities ukey m)) /\
+               NoDup (map fst m') /\ Forall (fun ue' => entity_canon (snd ue')) m'.
   Proof.
     intros sp m Hsp Hw. destruct (enc_entity_map_guards_sp sp m Hsp Hw) as [G1 G2].
     unfold enc_entity_map_sp in *. rewrite (dec_entity_map_arr _ G1 G2).
     apply store_wf_sorted in Hw. destruct Hw as [Hnd Hw].
-    destruct (dall_entities sp _ Hsp Hw) as (l' & Hd & Heq & Hid).
-    exists l'. rewrite Hd. cbn [dbind]. split; [|split; assumption].
-    rewrite fold_put_nodup; [reflexivity|]. cbn [app]. rewrite (equiv_keys _ _ Heq). exact Hnd.
+    destruct (dall_entities sp _ Hsp Hw) as (l' & Hd & Heq & Hid & Hc).
+    assert (Hnd' : NoDup (map fst l')) by (rewrite (equiv_keys _ _ Heq); exact Hnd).
+    exists l'. rewrite Hd. cbn [dbind]. split; [|repeat split; assumption].
+    rewrite fold_put_nodup; [reflexivity|]. cbn [app]. exact Hnd'.
   Qed.
 
   Theorem dec_enc_entity_map : forall m, store_wf m ->
@@ -676,11 +688,21 @@ Section EntityJsonProofs.
     destruct (dec_enc_entity_map_sp _ m spelling_implicit Hw) as (m' & Hd & Heq & _). exists m'. auto.
   Qed.
 
+  (* the decoded store is in canonical form: distinct keys, duplicate-free parents, well-formed attrs and tags *)
+  Theorem dec_enc_entity_map_canon : forall m m', store_wf m ->
+    dec_entity_map (enc_entity_map print_ip ord ukey m) = DOk m' ->
+    NoDup (map fst m') /\ Forall (fun ue' => entity_canon (snd ue')) m'.
+  Proof.
+    intros m m' Hw Hd. rewrite enc_entity_map_implicit in Hd.
+    destruct (dec_enc_entity_map_sp _ m spelling_implicit Hw) as (m'' & Hd' & _ & _ & H1 & H2).
+    rewrite Hd' in Hd. injection Hd as <-. auto.
+  Qed.
+
   Theorem dec_enc_entity_map_eq : forall m, store_wf m -> (forall l, ord l = l) ->
     dec_entity_map (enc_entity_map print_ip ord ukey m) = DOk (map norm_entity (sort_entities ukey m)).
   Proof.
     intros m Hw Hid. rewrite enc_entity_map_implicit.
-    destruct (dec_enc_entity_map_sp _ m spelling_implicit Hw) as (m' & Hd & _ & E). rewrite Hd, (E Hid). reflexivity.
+    destruct (dec_enc_entity_map_sp _ m spelling_implicit Hw) as (m' & Hd & _ & E & _). rewrite Hd, (E Hid). reflexivity.
   Qed.
 
   (* every accepted spelling of the uids and parents decodes to the same store *)
@@ -778,3 +800,74 @@ Section EntityJsonProofs.
     - eapply Permutation_trans; [exact Hp1|]. eapply Permutation_trans; [exact Hp|]. apply Permutation_sym, isort_perm.
   Qed.
 End EntityJsonProofs.
+
+(* ------------------------------------------------------------------------------------------ *)
+(* Examples (computed)                                                                          *)
+(* ------------------------------------------------------------------------------------------ *)
+
+Definition ej_ukey (u : uid) : str := fst u ++ s_of "::""" ++ snd u ++ s_of """".
+
+Definition ej_ex_store : store :=
+  [ ((s_of "User", s_of "bob"),
+     {| e_parents := [(s_of "Group", s_of "staff"); (s_of "Group", s_of "admins"); (s_of "Dept", s_of "x")];
+        e_attrs := [(s_of "age", VLong 41); (s_of "type", VString (s_of "human"))];
+        e_tags := [(s_of "t", VSet [VEntity (s_of "User") (s_of "alice"); VDecimal 12500])] |});
+    ((s_of "User", s_of "alice"),
+     {| e_parents := []; e_attrs := [(s_of "nested", VRecord [(s_of "id", VLong 1)])]; e_tags := [] |}) ].
+
+(* identity member order: the decoded store is the sorted store with sorted parents, and re-encodes identically *)
+Example ej_ex_roundtrip :
+  dec_entity_map (enc_entity_map vj_no_ip (fun l => l) ej_ukey ej_ex_store)
+  = DOk (map norm_entity (sort_entities ej_ukey ej_ex_store)).
+Proof. vm_compute. reflexivity. Qed.
+
+Example ej_ex_sorted_order :
+  map fst (sort_entities ej_ukey ej_ex_store) = [(s_of "User", s_of "alice"); (s_of "User", s_of "bob")] /\
+  map (fun ue => e_parents (snd ue)) (map norm_entity (sort_entities ej_ukey ej_ex_store))
+  = [[]; [(s_of "Dept", s_of "x"); (s_of "Group", s_of "admins"); (s_of "Group", s_of "staff")]].
+Proof. split; vm_compute; reflexivity. Qed.
+
+(* the explicit spelling of every uid and parent decodes to the same store *)
+Example ej_ex_explicit :
+  dec_entity_map (enc_entity_map_sp vj_no_ip (fun l => l) ej_ukey (enc_uid_explicit vj_no_ip (fun l => l)) ej_ex_store)
+  = dec_entity_map (enc_entity_map vj_no_ip (fun l => l) ej_ukey ej_ex_store).
+Proof. vm_compute. reflexivity. Qed.
+
+(* keys_plain is needed: an attribute key that is a field name up to case only ("Type"), or contains a special character (long s,
+   C5 BF), is json_safe and wf but the MODEL's decoder answers DUnk (outside its domain) *)
+Definition ej_ex_fold_store (key : str) : store :=
+  [ ((s_of "User", s_of "a"), {| e_parents := []; e_attrs := [(key, VLong 1)]; e_tags := [] |}) ].
+
+Example ej_ex_keys_plain_needed :
+  json_safe (fun _ _ _ => false) (VRecord [(s_of "Type", VLong 1)]) = true /\
+  keys_plain (VRecord [(s_of "Type", VLong 1)]) = false /\
+  dec_entity_map (enc_entity_map vj_no_ip (fun l => l) ej_ukey (ej_ex_fold_store (s_of "Type"))) = DUnk /\
+  json_safe (fun _ _ _ => false) (VRecord [([120; 197; 191], VLong 1)]) = true /\
+  keys_plain (VRecord [([120; 197; 191], VLong 1)]) = false /\
+  dec_entity_map (enc_entity_map vj_no_ip (fun l => l) ej_ukey (ej_ex_fold_store [120; 197; 191])) = DUnk.
+Proof. repeat split; vm_compute; reflexivity. Qed.
+
+(* exact field names are fine as attribute keys (here "type", "id", "uid") *)
+Example ej_ex_exact_field_names_ok :
+  keys_plain (VRecord [(s_of "id", VLong 1); (s_of "type", VLong 2); (s_of "uid", VRecord [(s_of "attrs", VLong 3)])]) = true.
+Proof. vm_compute. reflexivity. Qed.
+
+(* duplicated parents are merged by the decoder but kept by the encoder: NoDup on the parents is needed for the round trip *)
+Example ej_ex_nodup_parents_needed :
+  let m := [ ((s_of "U", s_of "a"), {| e_parents := [(s_of "G", s_of "g"); (s_of "G", s_of "g")]; e_attrs := []; e_tags := [] |}) ] in
+  dec_entity_map (enc_entity_map vj_no_ip (fun l => l) ej_ukey m)
+  = DOk [ ((s_of "U", s_of "a"), {| e_parents := [(s_of "G", s_of "g")]; e_attrs := []; e_tags := [] |}) ].
+Proof. vm_compute. reflexivity. Qed.
+
+Print Assumptions dec_enc_entity_map.
+Print Assumptions dec_enc_entity_map_eq.
+Print Assumptions second_encoding_identical.
+Print Assumptions enc_entity_map_guards.
+Print Assumptions dec_entity_map_total.
+Print Assumptions dec_uid_implicit.
+Print Assumptions dec_uid_explicit.
+Print Assumptions dec_enc_entity_map_sp.
+Print Assumptions dec_entity_map_spelling.
+Print Assumptions enc_entity_map_perm.
+Print Assumptions store_wf_norm.
+Print Assumptions dec_enc_entity_map_canon.
